@@ -157,10 +157,20 @@ PROPS["C18"] = dict(
 )
 
 PROPS["C06"] = dict(
-    inject=[("src/bigint/convert.rs", "c06/parse.rs")],
+    inject=[("src/bigint/convert.rs", "c06/parse.rs"), ("src/biguint/convert.rs", "c06/radix.rs")],
     kani=[dict(filter_q="c06_q_", filter_t=["c06_q_", "c06_t_"], jobs=14, timeout_q=240, timeout_t=900)],
     functions=[],
     bounds_quick="",
     outside="",
     trusted=[],
+)
+
+PROPS["C12"] = dict(
+    inject=[("src/biguint/power.rs", "c12/power.rs"), ("src/bigint/power.rs", "c12/bigint_power.rs")],
+    kani=[dict(filter_q="c12_q_", filter_t=["c12_q_", "c12_t_"], jobs=14, timeout_q=300, timeout_t=1200)],
+    functions=["Pow<u8..u128,usize> for BigUint (pow_impl!)", "Pow<&BigUint> for BigUint", "power::modpow dispatch", "plain_modpow"],
+    bounds_quick="exponent-tally homomorphism: ALL exponents 1..255 (u8) and 1..1023 (u16,u32,u64,usize,u128), powers of two 2^40; exponent 0 for every type; BigUint exponents of 0..3 digits with bases 0, 1, >=2; plain_modpow for all single-digit exponents < 2^8",
+    bounds_thorough="as quick plus exponents < 2^12, powers of two up to the type width, plain_modpow < 2^12",
+    outside="exactness of the multiplications themselves (C02's claim: C12 = schedule o C02); exponents >= 2^12 other than powers of two; multi-digit exponents of plain_modpow (64 heap-allocating steps per digit do not finish)",
+    trusted=["homomorphism stubs: <&BigUint as Mul<&BigUint>>::mul and MulAssign<&BigUint> -> tally addition; Rem/RemAssign -> identity (plain_modpow harnesses)"],
 )
